@@ -23,17 +23,21 @@ RULE = ("(TLE, time) pairs from the repo's test TLEs and the near-earth generato
         "method exactly (also for batches in which some positions are NaN), local time; explicit positions on the polar axis and "
         "1e-12..1 km off it (both hemispheres, pole surface to GEO height) through geoloc.get_lonlatalt with the same 2e-6 round "
         "trip; distinct = (tle, time) or observer or explicit position")
-ASSUMPTIONS = ["convergence of the latitude fixed-point iteration (contraction factor ~0.007) and the float round trip are measured",
+ASSUMPTIONS = ["convergence of the latitude fixed-point iteration is proved over the reals (PV.Props.C04Conv); its float execution and the float round trip are measured",
                "the code normalises by 6378.135 km and rescales the altitude by 6378.137 km: relative mismatch 3.1e-7, inside the 2e-6 tolerance"]
 TRUSTED = ["model PV.Model.Look (wrapLon, latStep/latLoop, lonLatAlt) and PV.Model.Astro.observerPosition", "spec PV.Spec.Topo"]
 LEVEL_TEXT = ("Theorems over the reals: longitude after `% 2pi` and the two `where`s lies in (-pi, pi]; every latitude iterate lies "
               "in [-pi/2, pi/2]; observer_position equals the WGS-84 geodetic->cartesian formulas rotated by GMST+lon, its "
               "velocity is omega x position; the module-level and object-level conversions are the same function of the "
               "normalised position; local time is lon/15 h; a fixed point of the iteration body converts back to the position "
-              "exactly up to the explicit unit mismatch A/XKMPER. Tie: lon/lat/alt and iteration counts model vs code at "
-              "1e-10, observer position at 1e-11. Convergence and float error are measured (2e-6 round trip).")
+              "exactly up to the explicit unit mismatch A/XKMPER; the iteration body is a contraction (factor 7/1000) for every "
+              "position with |p| >= 0.99 earth radii, polar axis included, so the loop exits within 5 passes, the returned "
+              "latitude is within 7e-13 of the unique fixed point and converting back reproduces the position within 2e-6 |p| "
+              "(PV.Props.C04Conv, over the reals). Tie: T-C (the traced loop passes, exit tests, altitude formula and "
+              "observer_position are the model's functions for all real inputs) + lon/lat/alt and iteration counts model vs "
+              "code at 1e-10, observer position at 1e-11. Float rounding is measured (2e-6 round trip).")
 LEVEL_NOTE = ("Trusted: Lean kernel + Mathlib reals; hand-written models + correspondence harness; constants F, A, XKMPER, MFACTOR "
-              "regenerated from the source; binary64 rounding and loop convergence not proved.")
+              "regenerated from the source; binary64 rounding not proved.")
 TECHNIQUE = "Lean 4 proof (range lemmas via Complex.arg, WGS-84 identities by field_simp/ring) + differential correspondence + independent-geodesy oracle"
 
 
